@@ -45,7 +45,7 @@ func runsFor(prop, tier string) []run {
 	}
 	switch prop {
 	case "C01":
-		alpha := []string{"W", "SnapU", "SnapA", "Rm", "Revert", "ReopenP", "ReopenN", "Reload", "R"}
+		alpha := []string{"W", "SnapU", "SnapA", "Rm", "Revert", "ReopenP", "ReopenN", "Reload", "ULMFF", "R"}
 		base := ea.Cfg{Blocks: 3, Alphabet: alpha, WShapes: shapes3, RShapes: rshapes3, Oracles: []string{"read", "reopen"}, MaxSnaps: 4, SysRmOnly: true, AllReads: true}
 		on := base
 		on.Punch = true
